@@ -91,13 +91,23 @@ def _kind_cls(kind):
 def build_schema(case):
     import flatland
     fields = [_kind_cls(f["kind"]).named(f["name"]) for f in case["fields"]]
-    return flatland.Dict.of(*fields).using(policy=case.get("policy", "subset"))
+    base = flatland.SparseDict if case.get("sparse") else flatland.Dict
+    return base.of(*fields).using(policy=case.get("policy", "subset"))
+
+
+def is_present(case, f):
+    return (not case.get("sparse")) or f.get("present", True)
 
 
 def build_element(case):
     el = build_schema(case)()
     for f in case["fields"]:
-        el[f["name"]].set(nat_to_py(f["value"]))
+        if not is_present(case, f):
+            continue
+        if case.get("sparse"):
+            el[f["name"]] = nat_to_py(f["value"])      # creates the member and set()s it
+        else:
+            el[f["name"]].set(nat_to_py(f["value"]))
     return el
 
 
@@ -158,7 +168,7 @@ def _kwargs(case, with_key, args=None):
 
 
 def _value_list(el, case):
-    return [[f["name"], py_to_nat(el[f["name"]].value)] for f in case["fields"]]
+    return [[k, py_to_nat(el[k].value)] for k in el.keys()]
 
 
 def _member_value(kind, x):
@@ -229,6 +239,7 @@ class C20(Property):
         "Flatland.C20.Proofs.set_by_object_reads_partial",
         "Flatland.C20.Proofs.C20_full_fails",
         "Flatland.C20.Proofs.set_by_object_values",
+        "Flatland.C20.Proofs.C20_sparse_fails",
         "Flatland.C20.Proofs.object_roundtrip",
     ]
     level_text = "proof"
@@ -247,13 +258,14 @@ class C20(Property):
     ]
     assumptions = [
         "field names, include/omit members, rename keys and values are str; rename is a dict or a list of 2-tuples",
-        "Dict (not SparseDict); members are scalars",
+        "Dict and SparseDict(minimum_fields=None); members are scalars",
     ]
     rule = ("Dict schemas of 1-5 fields (70% String/String(strip=False)/Integer, 30% Boolean/Date/Time/DateTime/unsigned %04i Integer/Enum) with names from a pool (ASCII, case variants, "
             "prefix-related, non-ASCII), member values None/str/int/bool incl. padded and unadaptable (rich kinds: kind-appropriate texts, floats, Decimals, native dates/times); op in slice/update_object/"
             "set_by_object/roundtrip; include/omit each None, [] or 1-3 names (known, unknown, overlapping rename; 8% both -> TypeError); "
             "rename None/{}/dict/pair list with sources and targets from fields+pool (collisions, chains, duplicate sources at low rate); "
-            "key function None or one of 7; objects with plain/property-backed/raising/absent attributes; policy subset/strict/duck. "
+            "key function None or one of 7; objects with plain/property-backed/raising/absent attributes; policy subset/strict/duck; 15% SparseDict with each member "
+            "present with probability 0.6. "
             "non-trivial = no exception and at least one of include/omit/rename/key supplied and a non-empty selection")
     exhaustive_note = ("fields {a:str, b:int}; include, omit in {None, [], [a], [b], [a,b], [zz]}; rename in {None, a->b, a->z, z->a, "
                        "swap a<->b, chain z->a,y->z}; op in slice/update/setby; key in {None, upper} for slice/update")
@@ -280,6 +292,11 @@ class C20(Property):
             {"op": "slice", "fields": f, "policy": "subset", "include": ["B"], "omit": None,
              "rename": {"as": "dict", "pairs": [["A", "q"]]}, "key": {"fn": "upper"}, "obj": []},
             {"op": "update", "fields": f, "policy": "subset", "include": ["a"], "omit": ["b"], "rename": None, "key": None, "obj": obj},
+            # open finding KF-C20-b: a fresh SparseDict reads nothing from the object
+            {"op": "setby", "sparse": True, "fields": [dict(x, present=False) for x in f], "policy": "subset", "include": None,
+             "omit": None, "rename": None, "key": None, "obj": obj},
+            {"op": "slice", "sparse": True, "fields": [dict(f[0], present=True), dict(f[1], present=False)], "policy": "subset",
+             "include": None, "omit": None, "rename": {"as": "dict", "pairs": [["a", "z"]]}, "key": None, "obj": []},
             {"op": "roundtrip", "fields": f, "policy": "subset", "include": ["a"], "omit": None,
              "rename": {"as": "dict", "pairs": [["b", "bee"]]}, "key": None, "obj": [],
              "args2": {"include": None, "omit": None, "rename": {"as": "dict", "pairs": [["bee", "b"]]}}},
@@ -379,6 +396,11 @@ class C20(Property):
                 fields.append({"name": nm, "kind": kind, "value": self._rand_value(rng, kind)})
             op = rng.choice(["slice", "slice", "update", "setby", "setby", "roundtrip"])
             case = {"op": op, "fields": fields, "policy": rng.choice(["subset"] * 8 + ["strict", "duck"])}
+            if rng.random() < 0.15:
+                case["sparse"] = True
+                case["policy"] = rng.choice(["subset"] * 4 + ["duck"])
+                for f in fields:
+                    f["present"] = rng.random() < 0.6
             if op == "roundtrip":
                 yield self._gen_roundtrip(rng, case, names)
                 continue
@@ -472,9 +494,9 @@ class C20(Property):
         fails = []
         el = build_element(case)
         op = case["op"]
-        values = {f["name"]: el[f["name"]].value for f in case["fields"]}
+        values = {f["name"]: el[f["name"]].value for f in case["fields"] if is_present(case, f)}
         kinds = {f["name"]: f["kind"] for f in case["fields"]}
-        fields = list(values)
+        fields = [f["name"] for f in case["fields"]]        # the DECLARED fields
         inc, om = case.get("include"), case.get("omit")
         rmap = rename_map(case.get("rename"))
         keyfn = keyfn_of(case.get("key"))
@@ -534,8 +556,9 @@ class C20(Property):
             if hyp:
                 for f in fields:
                     selected = (f in rmap) or (bool(inc) and f in inc) or (bool(om) and f not in om) or (not inc and not om)
+                    selected = selected and f in values
                     want_v = _member_value(kinds[f], values[f]) if selected else None
-                    got_v = el2[f].value
+                    got_v = _val(el2, f)
                     if got_v != want_v or type(got_v) is not type(want_v):
                         fails.append({"clause": "roundtrip", "field": f, "expected": _j(want_v), "observed": _j(got_v)})
                     if selected and values[f] is not None and _member_value(kinds[f], values[f]) != values[f]:
@@ -558,7 +581,7 @@ class C20(Property):
                 fails.append({"clause": "include-omit-exclusive", "expected": "TypeError", "observed": raised})
             if reads:
                 fails.append({"clause": "reads", "expected": [], "observed": sorted(reads)})
-            now = {f: el[f].value for f in fields}
+            now = {f: el[f].value for f in fields if f in el}
             if now != pre_values:
                 fails.append({"clause": "setby-failed-call-leaves-element", "expected": _j(pre_values), "observed": _j(now)})
             return fails
@@ -572,7 +595,7 @@ class C20(Property):
             if a not in before:
                 continue
             out = ref_outkey(a, inc, om, rmap)
-            if out is not None and out in values:
+            if out is not None and out in fields:
                 sources[out] = a
         strict_missing = case.get("policy") == "strict" and set(sources) != set(fields)
         if strict_missing:
@@ -584,7 +607,7 @@ class C20(Property):
             return fails
         for f in fields:
             want_v = _member_value(kinds[f], before[sources[f]]) if f in sources else None
-            got_v = el[f].value
+            got_v = _val(el, f)
             if got_v != want_v or type(got_v) is not type(want_v):
                 fails.append({"clause": "setby-values", "field": f, "expected": _j(want_v), "observed": _j(got_v)})
         return fails
@@ -592,6 +615,12 @@ class C20(Property):
     # ------------------------------------------------------------ findings, coverage, shrinking
 
     def classify(self, case, failure):
+        if case.get("sparse") and failure.get("clause") in ("reads", "setby-values", "roundtrip", "strict-policy"):
+            # the members that exist when set_by_object runs: the case's present fields, or none for
+            # the fresh element of a roundtrip
+            absent = [f["name"] for f in case["fields"] if case["op"] == "roundtrip" or not f.get("present", True)]
+            if absent:
+                return "KF-C20-b"
         if failure.get("clause") == "reads" and case.get("op") in ("setby",) and not (case.get("include") and case.get("omit")):
             fields = [f["name"] for f in case["fields"]]
             rmap = rename_map(case.get("rename"))
@@ -619,7 +648,10 @@ class C20(Property):
         for f in case["fields"]:
             if not isinstance(f["kind"], str):
                 pass
+        if case.get("sparse"):
+            pass
         t = ["op=" + case["op"], "exc=%s" % obs.get("exc"), "fields=%d" % len(case["fields"]),
+             "dict=%s" % ("sparse" if case.get("sparse") else "dense"),
              "rich-kinds=%s" % any(not isinstance(f["kind"], str) for f in case["fields"]),
              "policy=" + case.get("policy", "subset")]
         for k in ("include", "omit"):
@@ -708,6 +740,11 @@ class C20(Property):
 
 
 _MISSING = object()
+
+
+def _val(el, f):
+    """`.value` of member f; a member that does not exist (SparseDict) counts as unset."""
+    return el[f].value if f in el else None
 
 
 def _j(v):
